@@ -59,6 +59,7 @@ type Obligation struct {
 	Model   string
 	Query   string
 	Expect  string // "unsat" normally; "sat" for vacuity smoke checks
+	vc      *VC
 }
 
 type retPoint struct {
@@ -200,6 +201,14 @@ func (vc *VC) rangeFacts(x Term, t types.Type, depth int) Term {
 		if a, ok := vc.ss.tparams[tp.Obj().Name()]; ok {
 			return vc.rangeFacts(x, a, depth)
 		}
+		switch integerConstraint(tp) {
+		case "signed":
+			return inRange(x, types.Typ[types.Int64])
+		case "unsigned":
+			return inRange(x, types.Typ[types.Uint64])
+		case "integer":
+			return Term{fmt.Sprintf("(and (<= (- 9223372036854775808) %s) (<= %s 18446744073709551615))", x.S, x.S), SBool, nil}
+		}
 		return tBool(true)
 	}
 	switch u := t.Underlying().(type) {
@@ -223,7 +232,7 @@ func (vc *VC) rangeFacts(x Term, t types.Type, depth int) Term {
 		if si == nil || si.Kind != "slice" {
 			return tBool(true)
 		}
-		fs := []Term{{fmt.Sprintf("(>= (len.%s %s) 0)", x.Sort, x.S), SBool, nil},
+		fs := []Term{{fmt.Sprintf("(and (>= (len.%s %s) 0) (<= (len.%s %s) 4611686018427387904))", x.Sort, x.S, x.Sort, x.S), SBool, nil},
 			{fmt.Sprintf("(=> (isnil.%s %s) (= (len.%s %s) 0))", x.Sort, x.S, x.Sort, x.S), SBool, nil}}
 		es := vc.ss.sortOf(u.Elem())
 		if lo, _ := intRange(u.Elem()); lo != nil && depth == 0 {
@@ -236,7 +245,7 @@ func (vc *VC) rangeFacts(x Term, t types.Type, depth int) Term {
 		if si == nil || si.Kind != "map" {
 			return tBool(true)
 		}
-		return tAnd(Term{fmt.Sprintf("(>= (card.%s %s) 0)", x.Sort, x.S), SBool, nil},
+		return tAnd(Term{fmt.Sprintf("(and (>= (card.%s %s) 0) (<= (card.%s %s) 4611686018427387904))", x.Sort, x.S, x.Sort, x.S), SBool, nil},
 			Term{fmt.Sprintf("(=> (isnil.%s %s) (= (card.%s %s) 0))", x.Sort, x.S, x.Sort, x.S), SBool, nil})
 	case *types.Pointer:
 		si := vc.ss.info[x.Sort]
@@ -276,7 +285,7 @@ func (vc *VC) oblige(kind, label string, pos token.Pos, pc, cond Term, desc stri
 		p = fmt.Sprintf("%s:%d", shortFile(pp.Filename), pp.Line)
 	}
 	ob := &Obligation{Name: strings.TrimPrefix(name, modPath+"/"), Kind: kind, Func: vc.fi.Key, Pos: p, PC: pc, Cond: cond,
-		NDecl: len(vc.decls), NAssume: len(vc.assumes), Desc: desc, Expect: "unsat"}
+		NDecl: len(vc.decls), NAssume: len(vc.assumes), Desc: desc, Expect: "unsat", vc: vc}
 	if vc.fc != nil {
 		ob.Props = vc.fc.Props
 	}
